@@ -17,6 +17,7 @@ META = dict(
     technique="term extraction + exhaustive comparison over flag values; array-shape abstract interpretation",
 )
 META["text"] += " (R5, N) no array inherits the sample's dtype through np.full_like / np.empty_like (= C12.R6), and in-place conventions are keyed to the null mean, not to the statistic (= C01.R5)."
+META["text"] += ' (R4 = C13.R1-R3) the history is non-negative because every factor is: the clamped estimators and the bets stay in range.'
 
 REL = nnm.REL
 
@@ -82,6 +83,11 @@ def run(chk):
 
     # R5: values in [0,1] presuppose that the formulas are evaluated in floating point and that the in-place conventions are keyed
     # to the null mean, not to the statistic itself (C12.R6 dtype lint; C01.R5 override classification)
-    from . import c12, c01
+    from . import c12
     chk.borrow(c12.r6_dtype, {"C12.R6": "C11.R5"})
-    chk.borrow(c01.run, {"C01.R5": "C11.R5"})
+    for _tf in tfs.values():
+        R.classify_overrides(chk, _tf, "C11.R5")
+    # R4: entries >= 0 because no factor is negative: the ranges of the clamped estimators and of the bets (C13.R1-R3; the two
+    # unclamped estimators are C13's open findings and stay there)
+    from . import c13
+    chk.borrow(c13.run, {"C13.R1": "C11.R4", "C13.R2": "C11.R4", "C13.R3": "C11.R4"})
